@@ -157,6 +157,7 @@ type entry struct {
 	Int63     bool // integers above MaxInt64 cannot be written
 	NoMaps    bool // only scalars and lists of scalars
 	NoLists   bool
+	Respell   bool // the document spells the keys as the struct tags declare them (the entry point itself canonicalises the document's keys)
 	ByRef     bool // the input tree itself (maps, lists) is handed to go-zero, not a rendered document
 	Call      func(tree map[string]any, target any) error
 	Doc       func(tree map[string]any) string
@@ -167,7 +168,8 @@ var (
 	umStrVals = mapping.NewUnmarshaler("json", mapping.WithStringValues())
 	umForm    = mapping.NewUnmarshaler("form", mapping.WithStringValues(), mapping.WithOpaqueKeys(), mapping.WithFromArray())
 	umPath    = mapping.NewUnmarshaler("path", mapping.WithStringValues(), mapping.WithOpaqueKeys())
-	umHeader  = mapping.NewUnmarshaler("header", mapping.WithStringValues(), mapping.WithCanonicalKeyFunc(textproto.CanonicalMIMEHeaderKey))
+	// as rest/internal/encoding configures it (value lists, a scalar field takes the first value)
+	umHeader  = mapping.NewUnmarshaler("header", mapping.WithStringValues(), mapping.WithCanonicalKeyFunc(textproto.CanonicalMIMEHeaderKey), mapping.WithFromArray())
 	umLower   = mapping.NewUnmarshaler("json", mapping.WithCanonicalKeyFunc(strings.ToLower))
 	umUpper   = mapping.NewUnmarshaler("json", mapping.WithCanonicalKeyFunc(strings.ToUpper))
 )
@@ -187,6 +189,10 @@ func stringLists(tree map[string]any, wrapScalars bool) map[string]any {
 				m[k] = x
 			}
 		case []any:
+			if len(x) == 0 {
+				m[k] = v // an empty (or nil) value list stays what it is
+				continue
+			}
 			ss := make([]string, 0, len(x))
 			ok := true
 			for _, el := range x {
@@ -237,15 +243,15 @@ var entries = map[string]*entry{
 		Call: func(t map[string]any, v any) error { return umForm.Unmarshal(stringLists(t, true), v) }},
 	"pathlike": {Name: "pathlike", ByRef: true, Ctx: &ctxD{Name: "path", TagKey: "path", AllFromString: true}, NoNull: true, NoMaps: true, NoLists: true, Doc: jsonDoc,
 		Call: func(t map[string]any, v any) error { return umPath.Unmarshal(t, v) }},
-	"headerlike": {Name: "headerlike", ByRef: true, Ctx: &ctxD{Name: "header", TagKey: "header", AllFromString: true, Canon: textproto.CanonicalMIMEHeaderKey}, NoNull: true, NoMaps: true, Doc: jsonDoc,
-		Call: func(t map[string]any, v any) error { return umHeader.Unmarshal(stringLists(t, false), v) }},
+	"headerlike": {Name: "headerlike", ByRef: true, Ctx: &ctxD{Name: "header", TagKey: "header", AllFromString: true, FromArray: true, Canon: textproto.CanonicalMIMEHeaderKey}, NoNull: true, NoMaps: true, Doc: jsonDoc,
+		Call: func(t map[string]any, v any) error { return umHeader.Unmarshal(stringLists(t, true), v) }},
 	"lower": {Name: "lower", ByRef: true, Ctx: &ctxD{Name: "lower", TagKey: "json", Canon: strings.ToLower}, Doc: jsonDoc,
 		Call: func(t map[string]any, v any) error { return umLower.Unmarshal(t, v) }},
 	// a second canonicalising configuration over the same tag key as "lower" (shares struct types with it)
 	"upper": {Name: "upper", ByRef: true, Ctx: &ctxD{Name: "upper", TagKey: "json", Canon: strings.ToUpper}, Doc: jsonDoc,
 		Call: func(t map[string]any, v any) error { return umUpper.Unmarshal(t, v) }},
 	// core/conf: lower-cases the document's keys and unmarshals with a lower-casing canonical key function
-	"conf": {Name: "conf", Ctx: &ctxD{Name: "conf", TagKey: "json", Canon: strings.ToLower}, Doc: jsonDoc,
+	"conf": {Name: "conf", Respell: true, Ctx: &ctxD{Name: "conf", TagKey: "json", Canon: strings.ToLower}, Doc: jsonDoc,
 		Call: func(t map[string]any, v any) error { return conf.LoadFromJsonBytes(renderJSON(t), v) }},
 }
 
@@ -255,7 +261,7 @@ var httpCtx = map[string]*ctxD{
 	"json":   {Name: "http-json", TagKey: "json"},
 	"form":   {Name: "http-form", TagKey: "form", AllFromString: true, FromArray: true},
 	"path":   {Name: "http-path", TagKey: "path", AllFromString: true},
-	"header": {Name: "http-header", TagKey: "header", AllFromString: true, Canon: textproto.CanonicalMIMEHeaderKey},
+	"header": {Name: "http-header", TagKey: "header", AllFromString: true, FromArray: true, Canon: textproto.CanonicalMIMEHeaderKey},
 }
 
 // httpInput is the four-part input of one request.
@@ -313,9 +319,12 @@ func (in *httpInput) request() *http.Request {
 		case string:
 			r.Header[k] = []string{x}
 		case []any:
+			r.Header[k] = []string{} // a key without values is legal in an http.Header
 			for _, el := range x {
 				r.Header[k] = append(r.Header[k], fmt.Sprint(el))
 			}
+		case []string:
+			r.Header[k] = x // possibly empty or nil
 		}
 	}
 	vars := map[string]string{}
